@@ -182,5 +182,7 @@ Definition expected_digests : list (string * string) :=
   ("scheduler.py:Scheduler.register_callback_service_finished", "1bec893712d7d9ef40b786aaccef39a2");
   ("scheduler.py:Scheduler.register_callback_task_finished", "68f7a86e1858cd3c369752a82ff2add6");
   ("scheduler.py:Scheduler.register_variable_access_function", "e310aeaf76c0491018f27f4e1750eb4c");
-  ("scheduler.py:Scheduler.register_for_petrinet_callbacks", "d39193d4c2e18a5496bedc0135456b3d")
+  ("scheduler.py:Scheduler.register_for_petrinet_callbacks", "d39193d4c2e18a5496bedc0135456b3d");
+  ("scheduler.py:Scheduler.check_expression", "cd9d55733d4438335ee1fcade8951d7d");
+  ("scheduler.py:Scheduler.execute_expression", "ade4a39ff2b22d5ba146ff1b864a6021")
 ].
